@@ -374,8 +374,15 @@ def run_stream_cases(ctx, cases, kind='stream-scan', enforce_expect=True, prop_n
     mouts = lib.run_model_sharded(lines, shards=12) if len(lines) >= 2000 else lib.run_model(lines)
     results = []
     for c, o, line, mo in zip(cases, obs_list, lines, mouts):
-        pieces, err = impl_run(c['stream'], c['info_only'], c['continue_on_error'], c['filter'])
+        looping = mo.endswith('end err 99')     # the model ran out of fuel: no progress (declared length 0)
+        pieces, err = impl_run(c['stream'], c['info_only'], c['continue_on_error'], c['filter'],
+                               seconds=3 if looping else 120)
         io_ = fmt_outcome(pieces, err)
+        if looping and err in ('runaway', 'timeout'):
+            # both sides make no progress; recorded, outside the given properties
+            ctx.dist['non-terminating (declared length 0): model out of fuel, implementation loops'] += 1
+            ctx.count((c['stream'], c['info_only'], c['continue_on_error'], c['filter']), False)
+            continue
         tags = c.get('tags', [])
         for t in tags:
             ctx.dist[t] += 1
@@ -558,7 +565,8 @@ def make_offdomain_cases(ctx, pool, n_streams):
     cases = []
     small = [d for d in pool if len(d['bytes']) <= 3000]
     for k in range(n_streams):
-        shape = rng.choice(['sig-in-separator', 'truncated-last', 'noise-only', 'bare-signatures', 'header-only'])
+        shape = rng.choice(['sig-in-separator', 'truncated-last', 'noise-only', 'bare-signatures', 'header-only',
+                            'wrong-total-length', 'wrong-total-length'])
         ds = pick_messages(rng, small, rng.randrange(0, 4))
         msgs = [d['bytes'] for d in ds]
         if shape == 'sig-in-separator':
@@ -573,6 +581,19 @@ def make_offdomain_cases(ctx, pool, n_streams):
                 msgs = [rng.choice(small)['bytes']]
             last = msgs[-1]
             stream = b''.join(msgs[:-1]) + last[:rng.randrange(1, len(last))]
+        elif shape == 'wrong-total-length':
+            # section 0 declares a total length that is not the real one; everything else intact
+            if not msgs:
+                msgs = [rng.choice(small)['bytes']]
+            parts = []
+            for m in msgs:
+                if rng.random() < 0.6:
+                    n = max(0, len(m) + rng.choice([-9, -4, -1, 1, 2, 4, 5, 30] * 4 + [-len(m)]))
+                    m = m[:4] + n.to_bytes(3, 'big') + m[7:]
+                parts.append(m)
+                parts.append(rng.choice([b'', b'', b'\r\r\n', b'BUF']))
+            parts.append(rng.choice(small)['bytes'])
+            stream = b''.join(parts)
         elif shape == 'noise-only':
             stream = noise(rng, rng.randrange(0, 60)) + rng.choice([b'', b'B', b'BUF'])
         elif shape == 'bare-signatures':
@@ -770,17 +791,17 @@ def run(ctx):
 
     run_find_cases(ctx, ctx.n(1500, 20000))
 
-    clean = make_clean_cases(ctx, pool, ctx.n(110, 1700), n_modes=ctx.n(4, 5))
+    clean = make_clean_cases(ctx, pool, ctx.n(260, 1700), n_modes=ctx.n(4, 5))
     res_clean = run_stream_cases(ctx, clean, kind='stream-scan')
 
     fcases = make_file_cases(ctx, files, ctx.n(3, 8))
     run_stream_cases(ctx, fcases, kind='stream-scan')
 
     # C12 half: only the tie is enforced here (the C12 check owns the predicate; D10)
-    dam = make_damaged_cases(ctx, pool, ctx.n(25, 300))
+    dam = make_damaged_cases(ctx, pool, ctx.n(60, 300))
     run_stream_cases(ctx, dam, kind='stream-scan-damaged', enforce_expect=False)
 
-    off = make_offdomain_cases(ctx, pool, ctx.n(20, 250))
+    off = make_offdomain_cases(ctx, pool, ctx.n(70, 300))
     run_stream_cases(ctx, off, kind='stream-scan-offdomain')
 
     # command line on one in-domain sample with >= 2 messages
